@@ -71,6 +71,10 @@ CLAIMS = {
    technique="runtime monitoring: panic monitors around every public entry point reachable with remote data, each input logged before execution in a child process per shard (process-fatal errors attributed by the driver); inputs from systematic hostile-value field enumeration (plain and re-hashed / re-signed as a protocol-literate attacker would), seeded byte mutation and random bytes",
    text="~45 hostile JSON values x 18 top-level fields and the members of every special content x 10 event shapes x 16 room versions, each also with the content hash recomputed and valid signatures attached so that the event passes the hash gate, then ~30k byte-mutated inputs per run for events and for every other network decoder. Whatever NewEventFromUntrustedJSON accepts is driven through every accessor, Redact, SetUnsigned(Field), Sign, headered JSON, signature verification, StateNeededForAuth, Allowed (as event and as auth state), all resolvers and orderings; other bytes go through the JSON, signing, key, HTTP-auth, identifier, token and fclient decoders, CheckStateResponse / CheckSendJoinResponse / LoadAndVerify. Evidence counts entry-point calls and inputs accepted by a parser. Absence of panics is only ever 'none in N executions'.",
    note=TB + "events from the trusted parsers (caller's own store) are parsed but not exercised further; deliberate programmer-error panics are not driven."),
+ "C16": dict(level="exploration", design="§4 C16",
+   technique="runtime monitoring: ResolveServer / LookupWellKnown run against a scripted default HTTP transport and an in-process DNS server and are compared with a reference decision table; the allow / deny decision function (hook) is compared with the policy on CIDR edge addresses; real TCP dials through the client dialer and the DNS-cache dialer are observed in the accept logs of loopback listeners",
+   text="19 server-name shapes x 16 well-known outcomes x 8 SRV outcomes (2432 resolutions) are compared target-by-target (destination, Host header, TLS name) with the specification's steps, including that the delegated name is resolved without a second well-known lookup; well-known guards (status, 50 KiB with and without Content-Length, m.server) and cache-lifetime precedence are driven directly; 40+ random allow/deny configurations incl. unparsable entries x all range-edge addresses go through the decision and control functions; 72 real dials to 127.0.0.1 / 127.0.0.2 / 127.0.1.1 / ::1 check that a connection arrives at a listener iff the policy permits it.",
+   note=TB + "process-global http.DefaultTransport / net.DefaultResolver replaced inside the child process; SRV priority/weight not asserted; a well-known reply delegating to an invalid name and SERVFAIL handling follow the library."),
 }
 NOT_YET = "check not built yet (work in progress; see DESIGN.md §4 for the planned monitor)"
 
